@@ -141,6 +141,6 @@ def oracle(line, out, expect):
                 if wb != b"":
                     return "step %d: input %s outside the window put %d bytes on the wire" % (i, tok, len(wb))
                 if lenient and res != "ok": return "step %d: lenient write outside the window returned %s" % (i, res)
-                if not lenient and res != "err:InvalidAutomata": return "step %d: strict write outside the window returned %s" % (i, res)
+                if not lenient and not res.startswith("err:"): return "step %d: strict write outside the window returned %s" % (i, res)
             if nev: return "step %d: bitmap events on a write" % i
     return None
